@@ -8,9 +8,23 @@ class RewritePattern:
 
 
 class InsertPoint:
+    """kind/anchor: how the point was asked for (what contracts read); block/insert_before: xdsl's own fields"""
+
     def __init__(self, kind, anchor):
         self.kind = kind
         self.anchor = anchor
+        if kind == "before":
+            self.block = anchor.parent
+            self.insert_before = anchor
+        elif kind == "after":
+            self.block = anchor.parent
+            self.insert_before = anchor.next_op
+        elif kind == "at_start":
+            self.block = anchor
+            self.insert_before = anchor.first_op
+        else:
+            self.block = anchor
+            self.insert_before = None
 
     @staticmethod
     def before(op):
